@@ -11,7 +11,9 @@ certificates in the correspondence (harness/c07.py) and are reported as certific
 import Nitime.Model.C07
 import Nitime.Generated.Tridi
 import Nitime.Lemmas.TridiFold
+import Nitime.Lemmas.Dpss
 
+set_option linter.unusedSectionVars false
 namespace Nitime.C07.Props
 open Nitime Nitime.Tridi Nitime.C07
 
@@ -85,6 +87,115 @@ theorem tridisolve_deterministic (d e b : Array K) :
     tridisolve d e b = (bwd b.size (lastDiv b.size (fwd b.size (elim b.size ⟨d, e, b⟩)))).x := rfl
 
 end solves
+
+/-! ### sign convention -/
+section signs
+variable {K : Type} [Field K] [LinearOrder K] [IsStrictOrderedRing K]
+
+/-- every row of the output is the input row or its negative (so norms, orthogonality and
+eigen-residual magnitudes are untouched), and the number of rows is unchanged -/
+theorem fixSigns_pm (N : ℕ) (rows : List (List K)) :
+    (fixSigns N rows).length = rows.length ∧
+    ∀ i (h : i < rows.length), ∃ h' : i < (fixSigns N rows).length,
+      (fixSigns N rows)[i] = rows[i] ∨ (fixSigns N rows)[i] = negRow rows[i] := by
+  refine ⟨by simp [fixSigns], fun i h => ⟨by simp [fixSigns, h], ?_⟩⟩
+  simp only [fixSigns, List.getElem_mapIdx, fixRow, fixEven, fixOdd]
+  split_ifs <;> simp
+
+/-- flipping a row changes neither its energy nor (up to sign) its inner products -/
+theorem fixSigns_norm (N i : ℕ) (r : List K) : sumSq (fixRow N i r) = sumSq r := by
+  simp only [fixRow, fixEven, fixOdd]
+  split_ifs <;> simp [sumSq_negRow]
+
+/-- the convention the code enforces: even-order rows end with a non-negative sum; odd-order rows
+with a non-negative slope sum up to the first (largest) extremum of the first half.  (When that
+extremum is the first sample the slope sum is empty and the rule decides nothing.) -/
+theorem fixSigns_convention (N i : ℕ) (r : List K) :
+    (i % 2 = 0 → 0 ≤ sumList (fixRow N i r)) ∧
+    (i % 2 ≠ 0 → 0 ≤ sumList ((fixRow N i r).take (peak N (fixRow N i r)))) := by
+  constructor
+  · intro hi
+    simp only [fixRow, hi, if_true, fixEven]
+    split_ifs with h
+    · rw [sumList_negRow]; linarith
+    · exact not_lt.1 h
+  · intro hi
+    simp only [fixRow, hi, if_false, fixOdd]
+    split_ifs with h
+    · rw [peak_negRow, take_negRow, sumList_negRow]; linarith
+    · exact not_lt.1 h
+
+/-- the convention is a fixed point: applying it twice changes nothing -/
+theorem fixSigns_idem (N i : ℕ) (r : List K) : fixRow N i (fixRow N i r) = fixRow N i r := by
+  have hc := fixSigns_convention N i r
+  by_cases hi : i % 2 = 0
+  · have := hc.1 hi
+    simp only [fixRow, hi, if_true] at this ⊢
+    rw [fixEven, if_neg (not_lt.2 this)]
+  · have := hc.2 hi
+    simp only [fixRow, hi, if_false] at this ⊢
+    rw [fixOdd, if_neg (not_lt.2 this)]
+
+end signs
+
+/-! ### concentration, rescaling, low-bias selection -/
+section conc
+variable {K : Type} [Field K]
+
+/-- **the returned concentration is the Rayleigh quotient numerator** `vᵀ·S·v` of the Toeplitz
+kernel `S[m,n] = s(|m−n|)` whenever `r[0] = s(0)` and `r[k] = 2·s(k)` — which is how the code
+builds `r` from the sinc kernel (`r[0] = 2W`, `r[k] = 4W·sinc(2Wk) = 2·sin(2πWk)/(πk)`).
+For a unit-norm `v` this is the Rayleigh quotient itself. -/
+theorem concentration_is_rayleigh (N : ℕ) (v r s : ℕ → K) (h0 : r 0 = s 0)
+    (hk : ∀ k, 1 ≤ k → r k = 2 * s k) :
+    quadAutocorr N v r = ∑ m ∈ Finset.range N, ∑ n ∈ Finset.range N, v m * v n * s (m - n + (n - m)) := by
+  unfold quadAutocorr autocorrN
+  rw [sumN_eq]
+  simp_rw [sumN_eq]
+  exact quad_reindex v r s h0 hk N
+
+/-- rescaling by a square root of the energy gives unit energy -/
+theorem interpRescale_unit (s : K) (l : List K) (hs : s * s = sumSq l) (h0 : s ≠ 0) :
+    sumSq (rescale s l) = 1 := by
+  have key : ∀ l : List K, sumSq (rescale s l) = sumSq l / (s * s) := by
+    intro l
+    unfold sumSq rescale
+    rw [sumList_eq, sumList_eq, List.map_map]
+    induction l with
+    | nil => simp
+    | cons a t ih =>
+      simp only [List.map_cons, List.sum_cons, Function.comp] at ih ⊢
+      rw [ih]; field_simp
+  rw [key, ← hs]; field_simp
+
+end conc
+
+section lowbias
+variable {K : Type} [LT K] [DecidableLT K]
+
+/-- `low_bias`: exactly the (taper, concentration) pairs with concentration above the threshold
+are kept, in their original order, and tapers stay aligned with their concentrations -/
+theorem lowBias_spec (thr : K) (tapers : List (List K)) (eig : List K) :
+    let kept := (tapers.zip eig).filter fun p => thr < p.2
+    lowBias thr tapers eig = (kept.map (·.1), kept.map (·.2)) ∧
+    kept.Sublist (tapers.zip eig) ∧
+    (∀ p, p ∈ kept ↔ p ∈ tapers.zip eig ∧ thr < p.2) ∧
+    (∀ l ∈ (lowBias thr tapers eig).2, thr < l) := by
+  refine ⟨rfl, List.filter_sublist, fun p => by simp [List.mem_filter], ?_⟩
+  intro l hl
+  simp only [lowBias, List.mem_map, List.mem_filter] at hl
+  obtain ⟨p, ⟨_, hp⟩, rfl⟩ := hl
+  simpa using hp
+
+end lowbias
+
+/-- non-vacuity: signs (rows with negative sums are flipped), selection, Rayleigh on a 3-vector -/
+example : fixSigns 4 ([[-1, -2, -2, -1], [-1, -3, 3, 1], [1, 2, 2, 1]] : List (List Rat))
+    = [[1, 2, 2, 1], [1, 3, -3, -1], [1, 2, 2, 1]] := by decide +kernel
+example : lowBias (9/10 : Rat) [[1], [2], [3]] [1, 95/100, 1/2] = ([[1], [2]], [1, 95/100]) := by
+  decide +kernel
+example : quadAutocorr 3 (fun i => ([1, 2, 3] : List Rat).getD i 0) (fun k => ([5, 2, 4] : List Rat).getD k 0)
+    = 70 + 16 + 12 := by decide +kernel
 
 /-- non-vacuity: a 3×3 rational system with non-zero pivots, solved exactly -/
 example : tridisolve (#[4, 5, 6] : Array Rat) #[1, 2, 0] #[1, 2, 3] = #[10/49, 9/49, 43/98] := by
